@@ -16,7 +16,8 @@ package utils
 //@ spec isAdmin(groups string, admins string) bool = exists g string :: g != "" && isField(g, groups, ";") && isField(g, admins, ",")
 
 //@ func TemporaryEvaluate(md) (err)
-//@   props C14
+//@   props C14, C12
+//@   safe
 //@   modifies nothing
 //@   probe groups: mdGet(md, "groups")
 //@   probe admins: envOf("ADMINGROUPS")
@@ -25,7 +26,8 @@ package utils
 //@   loop 1 invariant 0 - 1 <= rangeindex && !match && (forall j int :: 0 <= j && j <= rangeindex ==> !(splitAt(mdGet(md, "groups"), ";", j) != "" && isField(splitAt(mdGet(md, "groups"), ";", j), envOf("ADMINGROUPS"), ",")))
 
 //@ func isAdminGroup(adminGroups, group) (r)
-//@   props C14
+//@   props C14, C12
+//@   safe
 //@   modifies nothing
 //@   ensures {C14} exact-member: r == isField(group, adminGroups, ",")
 //@   loop 1 invariant 0 - 1 <= rangeindex && (forall j int :: 0 <= j && j <= rangeindex ==> splitAt(adminGroups, ",", j) != group)
@@ -40,6 +42,7 @@ package utils
 //@   modifies nothing
 //@   ensures r == strPathOf(path)
 //@   ensures path == nil ==> r == "/"
+//@   ensures hasPrefix(r, "/")
 //@ func StrPathElem(pathElem) (r)
 //@   trusted
 //@   modifies nothing
